@@ -733,3 +733,75 @@ def reference_resolve(u: Unit):
     u.cover("reference.resolve.all_outcomes", ps, lambda p: True)
     for exc in ("ImportError", "ModuleNotFoundError", "TypeError"):
         u.cover(f"reference.resolve.outcome[{exc}]", ps, lambda p, exc=exc: p.kind == "raise" and p.exc_name() == exc)
+
+
+# ---- 10. ModelGroup in a HISTORY: iterate, switch models on / off, iterate again ------------------------------------------------------------
+TOGGLE_REPLAY = probe_replay("the models a group runs are the ones enabled AT THAT RUN", """
+VP.LOG.clear()
+ms = [ModelFunction(func='verif_probes.probe', name=f'm{i}', arguments={}, enabled=(i != 1)) for i in range(4)]
+pipe = DetectionPipeline(photon_collection=ms)
+det = VP.detector(); det.set_readout(times=[1.0], start_time=0.0)
+proc = Processor(detector=det, pipeline=pipe)
+repr(pipe); [m.name for m in pipe.photon_collection]                       # the group is displayed / iterated before anything is changed
+proc.run_pipeline(debug=False)
+first = [x['name'] for x in VP.LOG]; VP.LOG.clear()
+ms[0].enabled = False; ms[1].enabled = True                                  # what Processor.set('...m0.enabled', False) does
+proc.set('pipeline.photon_collection.m3.enabled', False)
+proc.run_pipeline(debug=False)
+second = [x['name'] for x in VP.LOG]
+VIOLATED = first != ['m0', 'm2', 'm3'] or second != ['m1', 'm2']
+DETAIL = f'first run {first}; after disabling m0 and m3 and enabling m1 the second run executes {second}'
+""")
+
+
+@unit("C01", "iter.history")
+def iter_history(u: Unit):
+    """ModelGroup.__iter__ on a group built by the REAL constructor (whatever private fields it has) with three models whose switches are
+    arbitrary: iterate once, then give every switch an arbitrary NEW value through the model's `enabled` attribute (what Processor.set
+    and a parameter sweep do), iterate again: the second iteration yields exactly the models enabled THEN, in list order. Bounded in
+    the length of the group and of the history."""
+    fi = u.fn(f"{MG}::ModelGroup.__iter__")
+    u.fn(f"{MG}::ModelGroup.__init__")
+    mgc, mfc = u.cls(f"{MG}::ModelGroup"), u.cls(f"{MF}::ModelFunction")
+    cfg = base_cfg(u.world)
+    old = [z3.Bool(f"enabled_before{i}") for i in range(3)]
+    new = [z3.Bool(f"enabled_after{i}") for i in range(3)]
+    hold = {}
+
+    def setup(ex):
+        hold.clear()
+        fr0 = Frame(None, mgc.module)
+        try:
+            ms = [ex.instantiate(mfc, [], {"func": VStr(f"pkg.mod.f{i}"), "name": VStr(f"m{i}"), "arguments": ex.st.alloc(HDict([])), "enabled": VBool(old[i])}, Frame(None, mfc.module)) for i in range(3)]
+            grp = ex.instantiate(mgc, [], {"models": ex.st.alloc(HList(list(ms))), "name": VStr("photon_collection")}, fr0)
+            first = ex.iterate(grp, fr0)
+            hold["first"] = [m.addr for m in first]
+            for i, m in enumerate(ms):
+                ex.setattr(m, "enabled", VBool(new[i]), fr0)
+            hold["ms"] = [m.addr for m in ms]
+        except PyExc as pe:
+            hold["failed"] = ex.exc_class_name(pe.val)
+            grp = NONE
+        hold["grp"] = grp
+        return [grp], {}
+    ps = u.paths(fi, setup, cfg, label="ModelGroup.__iter__[iterate, toggle, iterate]")
+    for p in ps:
+        if p.kind != "return" or hold.get("failed"):
+            u.oblige(p, "iter.history.returns", False, {"exc": p.exc_name() or hold.get("failed")}, TOGGLE_REPLAY)
+            continue
+        try:
+            second = [m.addr for m in p.ex.iterate(p.value, Frame(None, mgc.module))]
+        except Exception as e:
+            u.undecide("iter.history.second_iteration_follows_the_current_switches", fi.qualname, f"result of __iter__ cannot be iterated in the model: {e}")
+            continue
+        ms = hold["ms"]
+        # on this path the switches have definite truth values (each was branched on): compare with the solver under the path condition
+        s = z3.Solver()
+        s.add(*[c for c in p.st.pc if isinstance(c, z3.ExprRef)])
+        want_first = z3.And(*[(old[i] if ms[i] in hold["first"] else z3.Not(old[i])) for i in range(3)])
+        want_second = z3.And(*[(new[i] if ms[i] in second else z3.Not(new[i])) for i in range(3)])
+        order_ok = hold["first"] == [a for a in ms if a in hold["first"]] and second == [a for a in ms if a in second]
+        u.oblige(p, "iter.history.first_iteration", z3.And(zb(order_ok), want_first), {}, TOGGLE_REPLAY)
+        u.oblige(p, "iter.history.second_iteration_follows_the_current_switches", z3.And(zb(order_ok), want_second),
+                 {"yielded first": str([ms.index(a) for a in hold["first"]]), "yielded after the change": str([ms.index(a) for a in second])}, TOGGLE_REPLAY)
+    u.cover("iter.history.cover", ps, lambda p: p.kind == "return")
